@@ -30,7 +30,17 @@ def run_property(pid, tier, root, write=True, quiet=False, raw_override=None):
         P = lm.Program(root, ndebug=nd)
         ck.config = "NDEBUG" if nd else "DEBUG(asserts on)"
         names.append(ck.config)
-        mod.run(ck, P)
+        try:
+            mod.run(ck, P)
+        except AnalysisBroken as e:
+            # violations established before a later rule lost its footing stand on their own (their cause is usually what made the
+            # later anchor vanish); without any, the run has no verdict
+            known = {"%s@%s" % (k["rule"], k["site"]) for k in ck.load_known()}
+            if not any((not o.ok) and o.key not in known for o in ck.obs):
+                raise
+            ck.extra["analysis_aborted"] = "after the violation(s) below: %s" % e
+            ck.floors = {}
+            break
     ck.extra["configs"] = "+".join(names)
     if tier == "thorough" and hasattr(mod, "thorough"):
         mod.thorough(ck, root)
